@@ -182,6 +182,22 @@ def generate(r, tier):
             seen.add(key)
             out.append(("simulate", j["t"], j["d"], j["nn"]))
     r.add_tlc(_sim_counts(res, len(out) - n_enum), "simulate_depth%d" % sim["maxdepth"])
+    # nested sums in bracket-needing positions (Expr!NestSpec, depth 4): all of them in the thorough tier, a seeded sample in the quick tier
+    import random
+    consts = dict(ALPHABET["quick"], MaxDepth="4", SibDepth="1")
+    res = tlc.must(tlc.run("Expr", "Expr_nest.cfg", constants=consts, workers=4, heap="8g"), "Expr nested sums")
+    if res["violated"]:
+        raise tlc.TLCError("Expr.tla: nested-sum family violates %s\n%s" % (res["violated"], res["out"][-2000:]))
+    r.add_tlc(res, "nested_sums_depth4")
+    nest = res["json"]
+    if tier == "quick":
+        nest = random.Random(evidence.seed()).sample(nest, min(len(nest), 15000))
+        r.cov.setdefault("sampled", {})["nested_sums"] = [len(nest), len(res["json"])]
+    for j in nest:
+        key = json.dumps(j["t"], sort_keys=True)
+        if key not in seen:
+            seen.add(key)
+            out.append(("nested", j["t"], j["d"], j["nn"]))
     return out
 
 
@@ -391,7 +407,7 @@ def run(tier, replay=None):
                           ("negative sign", "-"), ("Abs(", "Abs("), ("exp(", "exp("), ("sin(", "sin(")):
             if tok in st:
                 feats[name] += 1
-    for part in ("enumerate", "simulate", "replay"):
+    for part in ("enumerate", "simulate", "nested", "replay"):
         sel = [(g, rec) for g, rec in ok if g[0] == part]
         if sel or part != "replay":
             r.add(part, evaluations=len(sel), nontrivial=0, traces=0,
@@ -404,7 +420,8 @@ def run(tier, replay=None):
     for g, rec in ok[step - 1::step][:5]:
         r.sample({"term": exprbuild.infix(g[1]), "sympy": rec["expr"], "printed": rec["s1"], "depth": g[2], "from": g[0]})
     r.cov["rule"] = ("every term of Expr.tla's grammar up to depth 2 over the tier's alphabet (exhaustive, TLC BFS) plus the terms on %d random "
-                     "walks of the generator to depth %d (TLC -simulate, seed VERIF_SEED): built as sympy objects (x positive, a_i real), printed by "
+                     "walks of the generator to depth %d (TLC -simulate, seed VERIF_SEED) plus the nested sums in bracket-needing positions of Expr!NestSpec "
+                     "(depth 4; seeded sample where 'sampled' says so): built as sympy objects (x positive, a_i real), printed by "
                      "ESRPrinter twice in-process and once in fresh interpreters with other PYTHONHASHSEEDs, the string read by sympy_locs and by "
                      "Likelihood.run_sympify, P1 class of each reading vs P1 class of the original object; ExprJudge.tla decides the clauses %s. "
                      "evaluations = terms judged (terms that sympy evaluates to zoo/nan are skipped); distinct_nontrivial = distinct printed strings of "
